@@ -8,7 +8,7 @@
 (*   through an included field; unions never nest directly; omitempty and  *)
 (*   pointers wrap at most once; natural mode only ever adds mappings.     *)
 (***************************************************************************)
-EXTENDS SchemaGen
+EXTENDS SchemaGen, Json, CSV
 
 VARIABLES x, ph
 
@@ -40,6 +40,10 @@ Inexpressible(t, mode) ==
     [] t.k = "map" -> t.c[1].k # "string" \/ Inexpressible(t.c[2], mode)
     [] t.k = "struct" -> \E i \in 1..Len(t.c) : AvroNameOf(t.c[i]) # "-" /\ Inexpressible(t.c[i].c[1], mode)
     [] OTHER -> FALSE
+
+\* role B: every enumerated type is also written out; the harness builds it with reflect and runs schema
+\* generation (C15) and, where a schema exists, a full encode / read-back round trip (C01, C02) on it
+DumpOK == ph >= 1 => CSVWrite("%1$s", <<ToJson([t |-> x])>>, "cases.ndjson")
 
 Inv ==
   LET a == SchemaOf(x, "strict", <<>>)
